@@ -408,6 +408,10 @@ class Interp:
     def truthy(self, v: Any) -> bool:
         if isinstance(v, (SVal, SumVal, LocalFn)):
             return True   # a non-zero number / a function object
+        if isinstance(v, Sym) and not any(ch in v.tag for ch in ".([") and not v.tag.startswith(("elem:", "builtin:")):
+            return True    # a model entity (an individual, a node, the problem ...): plain objects are truthy
+        if isinstance(v, (Obj, TypeV)):
+            return True
         if v is UNKNOWN or isinstance(v, Sym):
             return self.choose()
         if isinstance(v, (dict, set)):
